@@ -9,6 +9,7 @@ def lifecycle_scenarios(depth, tier):
     trees = {
         'met0': term(1, 'each', Pat(mask=255, chain=[seg('ret1', 'al0')])),     # fails only if never called
         'exact1': term(1, 'some', Pat(mask=255, chain=[seg('ret1', 'once')])),
+        'park': term(1, 'each', Pat(mask=255, chain=[seg('ans17', 'al0')])),
     }
     k = [0]
     def rec(evs, alive, nxt, original_alive, d, treename):
@@ -82,7 +83,7 @@ class Check(RuntimeCheck):
 
     def profiles(self, tier):
         n = 2000 if tier == 'quick' else 40000
-        return [('lc', Profile(max_terms=3, max_calls=6, clones=3, threads=2, end='mixed', unmentioned_call_chance=(1, 3), methods=[0, 1, 2, 3]), n)]
+        return [('lc', Profile(max_terms=3, max_calls=6, park_weight=4, resp_weights=[('ret', 4), ('ans', 5), ('dfl', 1), ('unm', 1)], clones=3, threads=2, end='mixed', unmentioned_call_chance=(1, 3), methods=[0, 1, 2, 3]), n)]
 
     def judge(self, name, text, real_lines):
         # dropping / verifying a clone never reports verification errors: only events on instance 0 may
@@ -91,7 +92,7 @@ class Check(RuntimeCheck):
         if len(evs) != len(outs):
             return None
         for e, o in zip(evs, outs):
-            if e.startswith('drop ') and ' i=0 ' not in e + ' ' and o != 'teardown ok':
+            if e.startswith('drop ') and ' i=0 ' not in e + ' ' and o.startswith('teardown ') and o != 'teardown ok':
                 return f"dropping a clone produced `{o}`"
         return None
 
